@@ -1,3 +1,70 @@
-(* C03 — placeholder while the lemmas are being written: the differential is the property. *)
+(* C03 — a recipe without random functions has exactly one, documented, meaning.
+   The Coq interpreter theories/Interp.v IS the independent reference interpreter that the
+   statement asks for; the per-run differential against /repo is the property itself.  The
+   theorems below show that the reference interpreter obeys documented rules for ALL
+   programs (so it is a specification rather than a second implementation).               *)
+From Coq Require Import ZArith List Permutation.
 From SFV Require Import Base Interp.
-Theorem C03_placeholder : True. Proof. exact I. Qed.
+From SFV.P Require Import InterpP InterpHeapP.
+Import ListNotations. Open Scope Z_scope. Open Scope string_scope.
+
+(* Output is only ever appended to: rows already emitted are never changed or retracted. *)
+Theorem C03_output_monotone :
+  forall fuel e tk s s' r, run fuel e tk s = Ok (s', r) -> extends s s'.
+Proof. exact run_extends. Qed.
+Print Assumptions C03_output_monotone.
+
+(* fields appear in declaration (storage) order, after id *)
+Theorem C03_fields_in_order :
+  forall s h s', write_row s h = Ok s' ->
+    out s' = out s \/
+    exists r, out s' = r :: out s /\ clean_row r /\
+      exists c, nth_error (heap s) h = Some c /\ fst r = c_table c /\
+        map fst (snd r) = "id"%string :: filter (fun n => negb (hidden n)) (map fst (c_fields c)).
+Proof. exact write_row_spec. Qed.
+Print Assumptions C03_fields_in_order.
+
+(* a row keeps its table, id and child index for as long as it is reachable *)
+Theorem C03_rows_immutable_identity :
+  forall fuel e tk s s' r, run fuel e tk s = Ok (s', r) -> heap_ext s s'.
+Proof. exact run_heap_ext. Qed.
+Print Assumptions C03_rows_immutable_identity.
+
+(* name resolution: current-iteration rows by table, then by nickname, then just_once rows
+   by table, by nickname, then the forward-reference slot *)
+Theorem C03_name_precedence :
+  forall s n,
+  object_name s n =
+  match lookup n (last_by_table s), lookup n (nick_objs s), lookup n (p_tables s), lookup n (p_nicks s) with
+  | Some h, _, _, _ => Some (VRow h)
+  | None, Some h, _, _ => Some (VRow h)
+  | None, None, Some h, _ => Some (VRow h)
+  | None, None, None, Some h => Some (VRow h)
+  | None, None, None, None => match lookup n (slots s) with Some _ => Some (VSlot n) | None => None end
+  end.
+Proof. exact object_name_precedence. Qed.
+Print Assumptions C03_name_precedence.
+
+(* a template whose count is <= 0 emits nothing and changes nothing *)
+Theorem C03_zero_count :
+  forall fuel e t i cnt last s, cnt <= i -> run (S fuel) e (TLoop t i cnt last) s = Ok (s, RRow last).
+Proof. exact loop_zero. Qed.
+Print Assumptions C03_zero_count.
+
+(* the two formula dialects' string coercions *)
+Theorem C03_dialect_words :
+  forall s, is_word s = true -> look_for_number s = Ok (VStr s) /\ native_str s = Ok (VStr s).
+Proof. exact words_stay_strings. Qed.
+Print Assumptions C03_dialect_words.
+
+Theorem C03_dialect2_numbers :
+  forall s, all_digits s = true ->
+    (first_is_zero s = false -> look_for_number s = Ok (VInt (digits_val 0 s))) /\
+    (first_is_zero s = true -> look_for_number s = Ok (VStr s)).
+Proof. intros s H. split; intros; [apply look_for_number_digits|apply look_for_number_leading_zero]; assumption. Qed.
+Print Assumptions C03_dialect2_numbers.
+
+Example C03_ex_dialects :
+  (look_for_number "007", look_for_number "12", look_for_number "0", native_str "0", native_str "00", native_str "010")
+  = (Ok (VStr "007"), Ok (VInt 12), Ok (VStr "0"), Ok (VInt 0), Ok (VInt 0), Ok (VStr "010")).
+Proof. vm_compute. reflexivity. Qed.
